@@ -37,8 +37,6 @@ structure Laws where
       (startTok (lowerName d) d a :: (textToks c ++ [endTok (lowerName d) d])) ∧
     StartsOpener (startTok (lowerName d) d a).raw
   other_closed : ∀ x, OtherOK x → Closed x [⟨.other, x, []⟩] ∧ StartsOpener x
-  /-- raw-text content holds no `<` -/
-  raw_noLt : ∀ d a c, RawOK d a c → ∀ b ∈ c, b ≠ 60
 
 /-- how the tokenizer sees a verbatim piece of a `Simple` document: a comment / declaration (it holds a `<`) is one
 token of kind `other`, a text one text token -/
@@ -221,69 +219,82 @@ theorem stream_serialize_of_laws (doc : List Node) (hs : SimpleL L doc) :
   have := SimpleL_tok L streamLaws doc hs [] [] [] streamLaws.nil (fun _ => Or.inr rfl)
   simpa only [List.append_nil] using this
 
-mutual
-  theorem SimpleN_noLt : ∀ (n : Node), SimpleN L n →
-      ∀ t ∈ tokensOf vtU n, ¬(t.kind = .text ∧ hasLt t.raw = true)
-    | .verb raw m, h, t, ht => by
-      simp only [tokensOf, vtU] at ht
+/-- the last token decides whether `filter` holds something back -/
+theorem splitHeld_of_last {ts : List Tok}
+    (h : ∀ t, ts.getLast? = some t → ¬(t.kind = .text ∧ hasLt t.raw = true)) : splitHeld ts = (ts, []) := by
+  unfold splitHeld
+  cases hl : ts.getLast? with
+  | none =>
+    have : ts = [] := by simpa using hl
+    subst this; rfl
+  | some t =>
+    simp only
+    rw [if_neg (h t hl)]
+
+def NotHeldTok (t : Tok) : Prop := ¬(t.kind = .text ∧ hasLt t.raw = true)
+
+/-- the last token of a node is a tag, a comment / declaration, or a text free of `<` (raw text, which may hold `<`, is
+always followed by its end tag) -/
+theorem lastTok_node (n : Node) : ∀ t, (tokensOf vtU n).getLast? = some t → NotHeldTok t := by
+  intro t ht
+  cases n with
+  | verb raw m =>
+    simp only [tokensOf, vtU] at ht
+    split at ht
+    · simp only [List.getLast?_singleton, Option.some.injEq] at ht
+      subst ht; simp [NotHeldTok]
+    · rename_i hc
+      unfold textToks at ht
       split at ht
-      · simp only [List.mem_cons, List.not_mem_nil, or_false] at ht
-        subst ht; simp
-      · rename_i hc
-        unfold textToks at ht
-        split at ht
-        · cases ht
-        · simp only [List.mem_cons, List.not_mem_nil, or_false] at ht
-          subst ht
-          intro hh
-          have := hh.2
-          simp only [hasLt] at this
-          exact hc this
-    | .el nm d a knd cs, h, t, ht => by
-      unfold SimpleN at h
-      cases knd with
-      | raw =>
-        simp only [tokensOf, List.mem_cons, List.mem_append, List.not_mem_nil, or_false] at ht
-        rcases ht with e | e | e
-        · subst e; simp [startTok]
-        · simp only at h
-          have hno := L.raw_noLt d a _ h.2
-          unfold textToks at e
-          split at e
-          · cases e
-          · simp only [List.mem_cons, List.not_mem_nil, or_false] at e
-            subst e
-            intro hh
-            have := hh.2
-            simp only [hasLt, List.contains_eq_mem, decide_eq_true_eq] at this
-            exact hno 60 this rfl
-        · subst e; simp [endTok]
-      | void => simp [tokensOf] at ht; subst ht; simp [startTok]
-      | selfClosing => simp [tokensOf] at ht; subst ht; simp [selfTok]
-      | normal =>
-        simp only at h
-        simp only [tokensOf, List.mem_cons, List.mem_append, List.not_mem_nil, or_false] at ht
-        rcases ht with e | e | e
-        · subst e; simp [startTok]
-        · exact SimpleL_noLt cs h.2.2.2 t e
-        · subst e; simp [endTok]
-  theorem SimpleL_noLt : ∀ (ns : List Node), SimpleL L ns →
-      ∀ t ∈ tokensOfList vtU ns, ¬(t.kind = .text ∧ hasLt t.raw = true)
-    | [], _, t, ht => by simp [tokensOfList] at ht
-    | n :: ns, h, t, ht => by
-      unfold SimpleL at h
-      simp only [tokensOfList, List.mem_append] at ht
-      rcases ht with e | e
-      · exact SimpleN_noLt n h.1 t e
-      · exact SimpleL_noLt ns h.2.2 t e
-end
+      · simp at ht
+      · simp only [List.getLast?_singleton, Option.some.injEq] at ht
+        subst ht
+        intro hh
+        have := hh.2
+        simp only [hasLt] at this
+        exact hc this
+  | el nm d a knd cs =>
+    cases knd with
+    | raw =>
+      have : tokensOf vtU (.el nm d a .raw cs) = (startTok nm d a :: textToks (serializeList cs)) ++ [endTok nm d] := by
+        simp [tokensOf]
+      rw [this, List.getLast?_append] at ht
+      simp only [List.getLast?_singleton, Option.some_or, Option.some.injEq] at ht
+      subst ht; simp [NotHeldTok, endTok]
+    | normal =>
+      have : tokensOf vtU (.el nm d a .normal cs) = (startTok nm d a :: tokensOfList vtU cs) ++ [endTok nm d] := by
+        simp [tokensOf]
+      rw [this, List.getLast?_append] at ht
+      simp only [List.getLast?_singleton, Option.some_or, Option.some.injEq] at ht
+      subst ht; simp [NotHeldTok, endTok]
+    | void =>
+      simp only [tokensOf, List.getLast?_singleton, Option.some.injEq] at ht
+      subst ht; simp [NotHeldTok, startTok]
+    | selfClosing =>
+      simp only [tokensOf, List.getLast?_singleton, Option.some.injEq] at ht
+      subst ht; simp [NotHeldTok, selfTok]
+
+theorem lastTok_list : ∀ (ns : List Node) (t : Tok), (tokensOfList vtU ns).getLast? = some t → NotHeldTok t
+  | [], t, ht => by simp [tokensOfList] at ht
+  | n :: ns, t, ht => by
+    simp only [tokensOfList, List.getLast?_append] at ht
+    cases hl : (tokensOfList vtU ns).getLast? with
+    | none =>
+      rw [hl] at ht
+      simp only [Option.none_or] at ht
+      exact lastTok_node n t ht
+    | some t' =>
+      rw [hl] at ht
+      simp only [Option.some_or, Option.some.injEq] at ht
+      subst ht
+      exact lastTok_list ns _ hl
 
 /-- … hence the bridge hypothesis `TokAgree` of the token-level theorems (given valid UTF-8) -/
 theorem tokAgree_of_laws (doc : List Node) (hs : SimpleL L doc)
     (hu : utf8Split (serializeList doc) = some (serializeList doc, [])) :
     TokAgree htmlTokenize vtU doc :=
   have h := streamTo_stream (stream_serialize_of_laws L doc hs)
-  ⟨h.1, h.2.1, h.2.2, hu, splitHeld_of_noLt ⟨[], [], []⟩ rfl (SimpleL_noLt L doc hs)⟩
+  ⟨h.1, h.2.1, h.2.2, hu, splitHeld_of_last (lastTok_list doc)⟩
 
 end
 
